@@ -27,15 +27,16 @@ CLAIMED = {
         tech="Lean 4 proof over regenerated codec tables + differential correspondence"),
     "C16": dict(
         text="Machine-checked proofs (Lean 4 kernel): the decimal rendering model is injective, digits-only, has no "
-             "leading zero and parses back, for every natural number; the MapClear loop empties any map under every "
-             "iteration order and the map stays usable; Assume/Assert panic iff the argument is false; the "
+             "leading zero and parses back, for every natural number; MapClear (now the builtin clear, after repair 9ef6e58) leaves "
+             "any map empty and usable, and the earlier range/delete loop is proved right for reflexive keys and wrong "
+             "for NaN-like keys under every iteration order; Assume/Assert panic iff the argument is false; the "
              "WaitTimeout protocol (caller, helper goroutine, timer, signals, other lock users) returns with the "
              "caller owning the lock under every interleaving, never unlocks a free mutex, and the caller can always "
              "finish. Tied to the code by the regenerated canonical bodies of machine/prims.go and of "
              "primitive.WaitTimeout (decide) and by running the real functions against the compiled models; elapsed "
              "time of WaitTimeout is measured and judged with slack (runtime behaviour: partial).",
         ref="DESIGN.md §6 C16",
-        note="Trusted/modelled, not verified: fmt's %d, Go map range/delete semantics, sync.Cond, sync.Mutex, "
+        note="Trusted/modelled, not verified: fmt's %d, the clear builtin's semantics (Go specification; observed on NaN, interface and struct keys), sync.Cond, sync.Mutex, "
              "time.After, select; the Go scheduler's timing (the theorem covers event order, not delays). Known "
              "finding: a ghost waiter left by a timed-out call steals the next Signal (known_findings.jsonl).",
         tech="Lean 4 proofs (induction, protocol invariant over all schedules) + differential correspondence + timed scenarios"),
